@@ -33,7 +33,7 @@ def rec_trees(items, opts):
             nodes, excs, order = record.tree_table(
                 m, nav=opts.get('nav', True), parts=opts.get('parts', True),
                 code_budget=opts.get('code_budget', 60000),
-                anc_types=ANC_TYPES if opts.get('nav', True) else ())
+                anc_types=ANC_TYPES if opts.get('anc') else ())
             tr['nodes'] = nodes
             tr['exc'] = ';'.join(sorted(set(excs)))
             if opts.get('posq'):
